@@ -19,6 +19,7 @@ pub mod streams;
 pub mod wire;
 pub mod rxpn;
 pub mod rcv;
+pub mod keyupd;
 
 use crate::{Rng, Runner};
 
@@ -53,6 +54,7 @@ pub fn lookup(name: &str) -> Option<(&'static str, GenFn)> {
         "mtud" => (mtud::MTUD_RULE, mtud::mtud as GenFn),
         "streams" => (streams::STREAMS_RULE, streams::streams as GenFn),
         "rxpn" => (rxpn::RXPN_RULE, rxpn::rxpn as GenFn),
+        "keyupd" => (keyupd::KEYUPD_RULE, keyupd::keyupd as GenFn),
         _ => return None,
     })
 }
